@@ -1,1 +1,221 @@
-import Simfile.Model.Objects
+/-
+C02: an SSC simfile object in the domain `DomSSC` survives serialize → parse, up to each chart's
+note data being moved last (`notesLast`); nothing else is changed or dropped.
+-/
+import Simfile.Model.Msd
+import Simfile.Lemmas.ObjectsSSC
+namespace Simfile.C02
+open Simfile Simfile.O
+
+/-- an SSC chart with distinct upper-case keys other than NOTEDATA, whose note data
+(`NOTES`, or `NOTES2` when only that one is present) has a string value; any other values -/
+structure DomSSCChart (c : SSCChart) : Prop where
+  wf : c.props.WF
+  upper : ∀ k ∈ c.props.keys, upper k = k
+  notND : ∀ k ∈ c.props.keys, k ≠ kNOTEDATA
+  notes : ∃ n, c.props.get? (notesKey c) = some (some n)
+
+structure DomSSC (s : SSCSimfile) : Prop where
+  wf : s.props.WF
+  upper : ∀ k ∈ s.props.keys, upper k = k
+  notND : ∀ k ∈ s.props.keys, k ≠ kNOTEDATA
+  charts : ∀ c ∈ s.charts, DomSSCChart c
+
+/-- a chart in the domain has NOTES or NOTES2 -/
+theorem DomSSCChart.has_notes {c : SSCChart} (h : DomSSCChart c) :
+    kNOTES ∈ c.props.keys ∨ kNOTES2 ∈ c.props.keys := by
+  obtain ⟨n, hn⟩ := h.notes
+  have : notesKey c ∈ c.props.keys := by
+    rw [← contains_iff, contains_eq, hn]; rfl
+  rcases notesKey_cases c with e | e <;> rw [e] at this
+  · exact Or.inl this
+  · exact Or.inr this
+
+theorem serSSC_eq (s : SSCSimfile) (h : DomSSC s) : serSSC s = .ok (sscItems s) :=
+  serSSC_ok s (fun c hc => (h.charts c hc).notes)
+
+theorem load_sscItems (s : SSCSimfile) (h : DomSSC s) : loadSSC (paramsOf (sscItems s)) = s.notesLast := by
+  rw [loadSSC_closed, paramsOf_sscItems,
+    segs_append_of_noND _ _ (isND_of_mem_props s.props h.upper h.notND),
+    segs_charts _ (fun c hc => isND_chartBody c (h.charts c hc).upper (h.charts c hc).notND)]
+  simp only [List.append_nil, List.map_map]
+  unfold SSCSimfile.notesLast
+  congr 1
+  · unfold dictOf
+    rw [map_kvOf_itemParam _ h.upper, setAll_rebuild_nil _ h.wf]
+  · apply List.map_congr_left
+    intro c hc
+    have hd := h.charts c hc
+    obtain ⟨n, hn⟩ := hd.notes
+    exact dictOf_chartBody c hd.wf hd.upper n hn
+
+/-- 6. serialization succeeds and reloading gives the simfile with each chart's note data moved last -/
+theorem roundtrip_params (s : SSCSimfile) (h : DomSSC s) :
+    (serSSC s).map (fun is => loadSSC (paramsOf is)) = .ok s.notesLast := by
+  rw [serSSC_eq s h]
+  show Except.ok (loadSSC (paramsOf (sscItems s))) = _
+  rw [load_sscItems s h]
+
+/-- if every chart already ends with its note-data item, the result is `s` itself -/
+theorem roundtrip_eq (s : SSCSimfile) (h : DomSSC s)
+    (hl : ∀ c ∈ s.charts, c.props.getLast?.map (·.1) = some (notesKey c)) :
+    (serSSC s).map (fun is => loadSSC (paramsOf is)) = .ok s := by
+  rw [roundtrip_params s h]
+  congr 1
+  unfold SSCSimfile.notesLast
+  obtain ⟨props, charts⟩ := s
+  congr 1
+  conv => rhs; rw [← List.map_id charts]
+  apply List.map_congr_left
+  intro c hc
+  exact notesLast_of_last c (h.charts c hc).wf (hl c hc)
+
+/-- serializing the reloaded simfile writes the same items (holds for every simfile) -/
+theorem reserialize_stable (s : SSCSimfile) : serSSC s.notesLast = serSSC s := serSSC_notesLast s
+
+theorem notesLast_idem (s : SSCSimfile) : s.notesLast.notesLast = s.notesLast := by
+  unfold SSCSimfile.notesLast
+  simp only [List.map_map]
+  congr 1
+  apply List.map_congr_left
+  intro c _
+  exact notesLast_notesLast c
+
+/-- no property is dropped, whatever values coincide: every `(k, v)` item of the i-th chart of `s` is an
+item of the i-th reloaded chart (and there are as many charts) -/
+theorem nothing_dropped (s : SSCSimfile) (h : DomSSC s) :
+    ∃ s', (serSSC s).map (fun is => loadSSC (paramsOf is)) = .ok s' ∧ s'.props = s.props ∧
+      s'.charts.length = s.charts.length ∧
+      ∀ (i : Nat) (c c' : SSCChart), s.charts[i]? = some c → s'.charts[i]? = some c' →
+        ∀ kv ∈ c.props, kv ∈ c'.props := by
+  refine ⟨s.notesLast, roundtrip_params s h, rfl, by simp [SSCSimfile.notesLast], ?_⟩
+  intro i c c' hc hc' kv hkv
+  simp only [SSCSimfile.notesLast, List.getElem?_map, hc, Option.map_some, Option.some.injEq] at hc'
+  subst hc'
+  exact mem_notesLast c (h.charts c (List.mem_of_getElem? hc)).wf kv hkv
+
+/-- 7. the round trip through text, for any tokenizer satisfying the contract -/
+theorem roundtrip (M : Msd) (hM : M.Contract) (s : SSCSimfile) (h : DomSSC s)
+    (hs : (serSSC s).map safeDoc = .ok true) (strict : Bool) :
+    (serSSC s).bind (fun is => (M.tokenize strict (M.renderDoc is)).map loadSSC) = .ok s.notesLast := by
+  rw [serSSC_eq s h] at hs ⊢
+  have hs' : safeDoc (sscItems s) = true := by
+    have : Except.ok (safeDoc (sscItems s)) = (Except.ok true : Except Err Bool) := hs
+    exact Except.ok.inj this
+  show (M.tokenize strict (M.renderDoc (sscItems s))).map loadSSC = _
+  rw [hM.roundtrip (sscItems s) strict (text_mem_sscItems s) hs']
+  show Except.ok (loadSSC (paramsOf (sscItems s))) = _
+  rw [load_sscItems s h]
+
+/-- content detection sees an SSC file when the first property is VERSION -/
+theorem detected_as_ssc (s : SSCSimfile) (h : DomSSC s) (hv : s.props.keys.head? = some kVERSION) :
+    (serSSC s).map (fun is => firstKeyIsVersion (paramsOf is)) = .ok true := by
+  rw [serSSC_eq s h]
+  show Except.ok (firstKeyIsVersion (paramsOf (sscItems s))) = _
+  congr 1
+  rw [paramsOf_sscItems]
+  obtain ⟨props, charts⟩ := s
+  cases props with
+  | nil => simp [Dict.keys] at hv
+  | cons kv d =>
+    simp only [Dict.keys, List.map_cons, List.head?_cons, Option.some.injEq] at hv
+    simp only [List.map_cons, List.cons_append, firstKeyIsVersion, itemParam, valueParam_key, hv]
+    decide
+
+/-- `SSCChart.from_str(str(chart))` for a chart in the domain that does not have both NOTES and NOTES2
+(the chart parser stops at the first of the two keys, see `chart_from_str_both`) -/
+theorem chart_from_str (c : SSCChart) (h : DomSSCChart c)
+    (hone : ¬ (kNOTES ∈ c.props.keys ∧ kNOTES2 ∈ c.props.keys)) :
+    (serSSCChart c).map (fun is => loadSSCChart (paramsOf is)) = .ok (.ok c.notesLast) := by
+  obtain ⟨n, hn⟩ := h.notes
+  rw [serSSCChart_ok c n hn]
+  show Except.ok (loadSSCChart (paramsOf (sscChartItems c))) = _
+  congr 1
+  rw [paramsOf_sscChartItems]
+  unfold loadSSCChart
+  simp only [show upper ndParam.key = kNOTEDATA from by decide, ne_eq, not_true_eq_false, if_false]
+  congr 1
+  unfold chartBody
+  rw [loadSSCChartBody_eq]
+  · exact dictOf_chartBody c h.wf h.upper n hn
+  · intro p hp
+    obtain ⟨kv, hkv, rfl⟩ := List.mem_map.mp hp
+    have hmem := List.mem_filter.mp hkv
+    have hk : kv.1 ∈ c.props.keys := List.mem_map.mpr ⟨kv, hmem.1, rfl⟩
+    have hne : kv.1 ≠ notesKey c := by simpa using hmem.2
+    unfold isNotesKey itemParam
+    rw [valueParam_key, h.upper _ hk]
+    apply decide_eq_false
+    rintro (e | e)
+    · -- NOTES is a key, so it is the notes key
+      rw [e] at hk hne
+      apply hne
+      unfold notesKey
+      rw [(contains_iff _ _).mpr hk]; rfl
+    · rw [e] at hk hne
+      by_cases h1 : kNOTES ∈ c.props.keys
+      · exact hone ⟨h1, hk⟩
+      · apply hne
+        unfold notesKey
+        have : c.props.contains kNOTES = false := by
+          rw [Bool.eq_false_iff]; intro hc; exact h1 ((contains_iff _ _).mp hc)
+        rw [this, (contains_iff _ _).mpr hk]; rfl
+
+/-! ### non-vacuity and the counter-example for charts with both NOTES and NOTES2 -/
+
+instance (d : Dict) : Decidable d.WF := inferInstanceAs (Decidable (List.Nodup _))
+
+theorem notes_iff (c : SSCChart) :
+    (∃ n, c.props.get? (notesKey c) = some (some n)) ↔ ((c.props.get? (notesKey c)).bind id).isSome = true := by
+  cases c.props.get? (notesKey c) with
+  | none => simp
+  | some o => cases o <;> simp
+
+instance (c : SSCChart) : Decidable (DomSSCChart c) :=
+  decidable_of_iff (c.props.WF ∧ (∀ k ∈ c.props.keys, Simfile.upper k = k) ∧
+    (∀ k ∈ c.props.keys, k ≠ kNOTEDATA) ∧ ((c.props.get? (notesKey c)).bind id).isSome = true)
+    ⟨fun ⟨a, b, c, d⟩ => ⟨a, b, c, (notes_iff _).mpr d⟩, fun ⟨a, b, c, d⟩ => ⟨a, b, c, (notes_iff _).mp d⟩⟩
+instance (s : SSCSimfile) : Decidable (DomSSC s) :=
+  decidable_of_iff (s.props.WF ∧ (∀ k ∈ s.props.keys, Simfile.upper k = k) ∧
+    (∀ k ∈ s.props.keys, k ≠ kNOTEDATA) ∧ (∀ c ∈ s.charts, DomSSCChart c))
+    ⟨fun ⟨a, b, c, d⟩ => ⟨a, b, c, d⟩, fun ⟨a, b, c, d⟩ => ⟨a, b, c, d⟩⟩
+
+/-- the blank SSC simfile of the library with one blank chart -/
+def blankSSC : SSCSimfile := ⟨T.blankSSCSimfile, [⟨T.blankSSCChart⟩]⟩
+
+example : DomSSC blankSSC := by decide +kernel
+example : (serSSC blankSSC).map safeDoc = .ok true := by decide +kernel
+example : blankSSC.props.keys.head? = some kVERSION := by decide
+example : ∀ c ∈ blankSSC.charts, c.props.getLast?.map (·.1) = some (notesKey c) := by decide +kernel
+
+/-- a chart whose NOTES2 sits in the middle, whose other values equal the note data (one is `none`), with a
+multi-value key; a second chart with both NOTES and NOTES2; values with ':', ';', '\\', "//", line breaks -/
+def trickySSC : SSCSimfile :=
+  ⟨[("VERSION".toList, some "0.83".toList), ("TITLE".toList, some "a:b;c\\d//e\n f\r\n".toList),
+    ("SUBTITLE".toList, none), ("DISPLAYBPM".toList, some "1:2".toList)],
+   [⟨[("STEPSTYPE".toList, some "0000".toList), ("NOTES2".toList, some "0000".toList),
+      ("CREDIT".toList, some "0000".toList), ("DESCRIPTION".toList, none),
+      ("ATTACKS".toList, some "0000:0000".toList)]⟩,
+    ⟨[("NOTES".toList, some "1111".toList), ("NOTES2".toList, some "1111".toList), ("METER".toList, some "1111".toList)]⟩,
+    ⟨T.blankSSCChart⟩]⟩
+
+example : DomSSC trickySSC := by decide +kernel
+example : (serSSC trickySSC).map safeDoc = .ok true := by decide +kernel
+example : trickySSC.notesLast ≠ trickySSC := by decide +kernel
+example : (serSSC trickySSC).map (fun is => loadSSC (paramsOf is)) = .ok trickySSC.notesLast :=
+  roundtrip_params _ (by decide +kernel)
+
+/-- FINDING: for a chart that has both NOTES and NOTES2, `SSCChart.from_str(str(chart))` stops at
+whichever of the two keys is written first and loses the rest, so the extra hypothesis of
+`chart_from_str` cannot be dropped -/
+def bothNotes : SSCChart :=
+  ⟨[("NOTES2".toList, some "x".toList), ("CREDIT".toList, some "y".toList), ("NOTES".toList, some "z".toList)]⟩
+
+example : DomSSCChart bothNotes := by decide +kernel
+theorem chart_from_str_both :
+    (serSSCChart bothNotes).map (fun is => loadSSCChart (paramsOf is)) =
+      .ok (.ok ⟨[("NOTES2".toList, some "x".toList)]⟩) ∧
+    (serSSCChart bothNotes).map (fun is => loadSSCChart (paramsOf is)) ≠ .ok (.ok bothNotes.notesLast) := by
+  decide +kernel
+
+end Simfile.C02
